@@ -374,6 +374,52 @@ Definition parse (q : request) : option params :=
 Definition handle (me bf : Z) (s : state) (q : request) : outcome :=
   match parse q with None => BadRequest | Some p => search me bf s p end.
 
+(** *** Which requests lift the scan cap (round 7)
+
+    [parseSearchParams] with the cap ([newSearchParams]: maxFileScanEntries
+    50000) and the rule that lifts it as parameters.  The code as it is:
+    every request that carries a valid [offset], 0 included, scans without a
+    cap ([scan_now]); [parse] is [parse_with (scan_now 50000)].  [scan_pos]:
+    the cap lifted only for a positive offset. *)
+Definition default_scan : Z := 50000.
+
+Definition scan_now (cap : Z) (off : option Z) : Z :=
+  match off with Some _ => 0 | None => cap end.
+
+Definition scan_pos (cap : Z) (off : option Z) : Z :=
+  match off with Some o => if o >? 0 then 0 else cap | None => cap end.
+
+Definition parse_with (scan : option Z -> Z) (q : request) : option params :=
+  match q_older q with
+  | Some None => None
+  | _ =>
+    if match q_limit q with Some l => bad_int l | None => false end then None else
+    if match q_offset q with Some o => bad_int o | None => false end then None else
+    if match q_status q with Some st => (st <? 0) || (st >? 9) | None => false end then None else
+    Some {| p_older := match q_older q with Some (Some t) => Some t | _ => None end;
+            p_limit := match q_limit q with Some l => l | None => 500 end;
+            p_offset := match q_offset q with Some o => o | None => 0 end;
+            p_scan := scan (q_offset q);
+            p_crits := (match q_term q with Some (v, a, st) => [CTerm v a st] | None => [] end) ++
+                       (match q_status q with Some st => [CStatus st] | None => [] end) |}
+  end.
+
+Definition handle_with (scan : option Z -> Z) (me bf : Z) (s : state) (q : request) : outcome :=
+  match parse_with scan q with None => BadRequest | Some p => search me bf s p end.
+
+(** [search] behind its two sources: cut, sort, offset, cursor. *)
+Definition search_post (p : params) (m fe : list entry) (fo : Z) : outcome :=
+  let tl := p_offset p + p_limit p in
+  let all := m ++ fe in
+  if (lenZ all >? tl) && (tl <? 0) then Panic else
+  let cut := if lenZ all >? tl then firstnZ tl all else all in
+  let sorted := sort_desc cut in
+  let (es, o) :=
+    if p_offset p >? 0 then
+      (if lenZ sorted >? p_offset p then (skipnZ (p_offset p) sorted, fo) else ([], 0))
+    else (sorted, fo) in
+  Ok es (match es with [] => o | _ => e_time (last es (Build_entry 0 0 0 [] [] [] 0 false)) end).
+
 (** ** Histories *)
 Inductive op :=
   | OAdd (e : entry)
